@@ -6,6 +6,7 @@ import Driver.C11
 import Driver.C15
 import Driver.C01
 import Driver.C02
+import Driver.C16
 open Lean Driver
 
 def handlers : List (String × Handler) := [
@@ -15,7 +16,8 @@ def handlers : List (String × Handler) := [
   ("C11", Driver.C11.handle),
   ("C15", Driver.C15.handle),
   ("C01", Driver.C01.handle),
-  ("C02", Driver.C02.handle)
+  ("C02", Driver.C02.handle),
+  ("C16", Driver.C16.handle)
 ]
 
 def processLine (line : String) : String :=
